@@ -19,4 +19,5 @@ func init() {
 	subcommands["c20-race"] = cw.RaceMain // the -race build of internal/c20/racemain runs the same body
 	subcommands["c20-build"] = c20Build
 	subcommands["c20-stdrt"] = c20StdRoundtrip
+	subcommands["c20-seq"] = c20Seq
 }
